@@ -25,10 +25,18 @@ def main():
     except SystemExit:
         raise
     except BaseException:
-        traceback.print_exc(file=sys.stdout)
-        # a crashing check must not pass silently
-        print(f'[{prop}] check machinery crashed')
-        code = 2
+        # The machinery met behaviour of the implementation it cannot handle: the tie between model and
+        # code is broken in a way the check did not anticipate. Report it as such, never pass silently.
+        tb = traceback.format_exc()
+        print(tb)
+        import hashlib, json
+        from harness import core
+        os.makedirs(os.path.join(core.VERIF, 'replays'), exist_ok=True)
+        path = os.path.join('replays', f'{prop}-crash-{hashlib.sha1(tb.encode()).hexdigest()[:10]}.json')
+        json.dump(dict(property=prop, kind='no-failing-input-found', broken=[dict(what='check machinery raised', detail=tb[-3000:])]),
+                  open(os.path.join(core.VERIF, path), 'w'), indent=1)
+        print(f'VIOLATION property={prop} replay={path} no-failing-input-found')
+        code = 1
     sys.stdout.flush()
     os._exit(code)
 
